@@ -1259,6 +1259,7 @@ INVARIANT RoundTrip
 INVARIANT NonCanonicalCollides
 INVARIANT AnnotatedPaths
 CONSTRAINT Emit
+CHECK_DEADLOCK FALSE
 """
 
 
@@ -1275,8 +1276,13 @@ def check_c24(tier, seed, work):
         states += mc["distinct"]
         outs.append(mc["out"])
     r = run_replay(bindir, h, "protomap", ["-in", ",".join(outs), "-prop", "C24"], work, "protomap")
-    if r["evaluated"] == 0 or r["distinct"] != states:
-        raise Infra("protomap replay evaluated %d of %d model messages" % (r["distinct"], states))
+    emitted = set()
+    for o in outs:
+        for l in open(o, errors="replace"):
+            if l.startswith('"PMROOT ') or l.startswith('"PMEX '):
+                emitted.add(l)
+    if r["evaluated"] == 0 or r["distinct"] != len(emitted):
+        raise Infra("protomap replay evaluated %d of %d model messages" % (r["distinct"], len(emitted)))
     cov = dict(states=states, transitions=states, traces_validated_against_impl=r["evaluated"], exhaustive=True,
                samples=(r.get("samples") or [])[:3] or [dict(family="root", hostname="host", ifs=["eth0"], subs={"eth0": ["18446744073709551615"]}),
                                                          dict(family="example", ui="18446744073709551615", llunb=["e:VAL_TWO", "u:7"], em=["k1"], child=["n1"])],
